@@ -797,9 +797,18 @@ fn canon_sequences(rep: &mut Report, tier: Tier) {
         RemoveLast,
         Clone,
         CloneFrom,
+        /// a non-canonical value (the number 1.50, or an object whose members are in the wrong
+        /// order) written into the first entry through one of the accessors that hand out
+        /// `&mut Value`: get_mut, get_unique_mut, iter_mut, get_mut_or_insert_with on a key that
+        /// is present, `&mut object` into_iter
+        Write(u8, bool),
     }
     let keys = ["\u{e000}", "\u{10000}", "a", "\u{ffff}b", "\u{1d11e}"];
     let mut ops = vec![Op::Canon, Op::Sort, Op::RemoveFirst, Op::RemoveLast, Op::Clone, Op::CloneFrom];
+    for route in 0..5u8 {
+        ops.push(Op::Write(route, false));
+        ops.push(Op::Write(route, true));
+    }
     for k in 0..keys.len() {
         ops.push(Op::Push(k));
     }
@@ -846,6 +855,38 @@ fn canon_sequences(rep: &mut Report, tier: Tier) {
                             Op::RemoveLast => {
                                 if !o.is_empty() {
                                     o.remove_at(o.len() - 1);
+                                }
+                            }
+                            Op::Write(route, nested) => {
+                                if let Some(first) = o.entries().first().map(|e| e.key.clone()) {
+                                    let new = if *nested {
+                                        Value::Object(Object::from_vec(vec![Entry::new(Key::from("\u{e000}"), Value::from(1u32)), Entry::new(Key::from("\u{10000}"), Value::Number(json_syntax::NumberBuf::new(b"2.0".to_vec().into()).unwrap()))]))
+                                    } else {
+                                        Value::Number(json_syntax::NumberBuf::new(b"1.50".to_vec().into()).unwrap())
+                                    };
+                                    match route {
+                                        0 => {
+                                            if let Some(slot) = o.get_mut(first.as_str()).next() {
+                                                *slot = new;
+                                            }
+                                        }
+                                        1 => {
+                                            if let Ok(Some(slot)) = o.get_unique_mut(first.as_str()) {
+                                                *slot = new;
+                                            }
+                                        }
+                                        2 => {
+                                            if let Some((_, slot)) = o.iter_mut().next() {
+                                                *slot = new;
+                                            }
+                                        }
+                                        3 => *o.get_mut_or_insert_with(first.as_str(), || Value::Null) = new,
+                                        _ => {
+                                            if let Some((_, slot)) = (&mut o).into_iter().next() {
+                                                *slot = new;
+                                            }
+                                        }
+                                    }
                                 }
                             }
                             Op::Clone => o = o.clone(),
